@@ -19,7 +19,8 @@ Record v2_repaired (c : cfg) : Prop := mkV2R {
   v2_engine : c_engine c = V2;
   v2_cad : f_cad (c_fix c) = true;
   v2_proc_open : f_proc_open (c_fix c) = true;
-  v2_dlq_open : f_dlq_open (c_fix c) = true }.
+  v2_dlq_open : f_dlq_open (c_fix c) = true;
+  v2_no_stfail : c_stfail c = false }.   (* no failing status write: see the findings keyed failed-running-write *)
 
 (* the cleanup goroutine of run i owns the lifecycle: it is past startupDone and before its tail *)
 Definition holder (s : st) (i : nat) : bool :=
@@ -953,7 +954,7 @@ Lemma start_step_thread c s t q ch :
   v2_repaired c -> Inv2 s -> thread_at s t q -> owning t q ->
   start_result s t (start_step c s q ch).
 Proof.
-  intros [Hv Hcad Hpo Hdo] HI Ht Ho.
+  intros [Hv Hcad Hpo Hdo Hsf] HI Ht Ho.
   destruct (thread_ctx s t q HI Ht Ho) as (C1 & C2 & Hok & C4).
   pose proof (spc_pre s q _ Hok Ho) as Hpre.
   assert (Hrt : forall r, pc_run q = Some r -> TC r <> t).
@@ -980,7 +981,7 @@ Proof.
     pose proof (set_thread_cleans s1 t q' r (Hrt r eq_refl)) as B5.
     destruct q'; simpl in Hr; inversion Hr; subst; unfold spc_ok2, pre_status; rewrite ?B1, ?B2, ?B3, ?B4, ?B5; tauto. }
   unfold start_result.
-  destruct q as [| |r|r|r|r|r|r|r|r|r]; simpl start_step; rewrite ?Hv.
+  destruct q as [| |r|r|r|r|r|r|r|r|r]; simpl start_step; rewrite ?Hsf; simpl andb; cbv iota; rewrite ?Hv.
   - (* SCheck: only a nested Start owns here *)
     destruct Ho as [Ho|Ho]; [|congruence]. destruct t as [|i]; [discriminate|]. simpl in Hok.
     rewrite Hok. simpl.
